@@ -16,7 +16,7 @@ def run(patch):
         if b.returncode != 0:
             return patch, "BUILD-FAILED " + b.stderr[:300]
         c = subprocess.run(["/verif/bin/tengocheck", "-prop", "all", "-tier", "quick", "-repo", d, "-no-evidence"], env=ENV, capture_output=True, text=True)
-        v = [l.strip() for l in c.stdout.splitlines() if l.startswith("  violation:") or l.startswith("ERROR")]
+        v = sorted(set(l.strip()[:400] for l in c.stdout.splitlines() if l.startswith("  violation:") or l.startswith("ERROR")))[:12]
         return patch, ("silent" if not v else "ALARM\n    " + "\n    ".join(x[:400] for x in v))
     finally:
         shutil.rmtree(d, ignore_errors=True)
